@@ -354,6 +354,8 @@ pub struct Hostile {
     /// 3 = packets announced by their short last fragment only
     focus: u8,
     flood_next: std::collections::BTreeMap<usize, u32>,
+    /// focus 4: packet ids whose slots are to be reused 4096 ids later
+    revisit: Vec<u32>,
 }
 
 impl Hostile {
@@ -383,6 +385,7 @@ impl Hostile {
             recorded: Vec::new(),
             focus: plan.param("hostile_focus", 0.0) as u8,
             flood_next: Default::default(),
+            revisit: Vec::new(),
             rng,
         }
     }
@@ -425,6 +428,46 @@ impl Adversary for Hostile {
                     let id = *next;
                     *next = next.wrapping_add(32);
                     enc_data(id, false, &[])
+                } else if self.focus == 4 && self.rng.chance(0.9) {
+                    // "slot reuse": complete packets with inconsistent parent leads (the receiver
+                    // moves its window past packets it has received in full but cannot deliver),
+                    // then the window is walked forward by one slot array (4096 ids) and new
+                    // packets complete in the very slots of the passed ones
+                    let (pbase, pwin, fbase_probe) = match probe {
+                        Probe::Hc(h) => (h.rx_packet_base_id, h.rx_packet_window_size.max(1), Some(h.rx_frame_base_id)),
+                        _ => (self.seen[victim].rx_packet_base.unwrap_or(0), 4096, None),
+                    };
+                    let fbase = fbase_probe.or(self.seen[victim].rx_frame_base).unwrap_or(0);
+                    let fnext = self.flood_next.entry(victim).or_insert(fbase);
+                    if fnext.wrapping_sub(fbase) > 1000 {
+                        *fnext = fbase;
+                    }
+                    let fid = *fnext;
+                    *fnext = fnext.wrapping_add(1);
+                    let mk = |seq: u32, ch: u8, wlead: u16, clead: u16, len: usize| RawDatagram { seq: seq & 0xFFFFF, ch, wlead, clead, frag: 0, last: 0, data: vec![0xA5; len], enc: 2 };
+                    if self.revisit.is_empty() || self.rng.chance(0.25) {
+                        let l1 = self.rng.range(1, 1200) as usize;
+                        let l2 = self.rng.range(1, 200) as usize;
+                        let a = pbase.wrapping_add(1);
+                        let b = pbase.wrapping_add(2);
+                        self.revisit.push(a & 0xFFFFF);
+                        self.revisit.push(b & 0xFFFFF);
+                        let (w2, c2) = *self.rng.pick(&[(1u16, 2u16), (1, 1), (2, 2), (0, 2), (1, 0)]);
+                        enc_data(fid, false, &[mk(a, 1, 0, 0, l1), mk(b, 0, w2, c2, l2)])
+                    } else {
+                        let tgt = (self.revisit[0] + 4096) & 0xFFFFF;
+                        let delta = tgt.wrapping_sub(pbase) & 0xFFFFF;
+                        if delta < pwin.min(4096) {
+                            self.revisit.remove(0);
+                            let len = self.rng.range(1, 600) as usize;
+                            enc_data(fid, false, &[mk(tgt, self.rng.below(4) as u8, 0, 0, len)])
+                        } else if delta >= 0x80000 {
+                            self.revisit.remove(0);
+                            enc_sync(None, None)
+                        } else {
+                            enc_sync(None, Some(pbase.wrapping_add(pwin.min(delta)) & 0xFFFFF))
+                        }
+                    }
                 } else if self.focus == 3 && self.rng.chance(0.9) {
                     // "tail first": consecutive packet ids, each announced by its last fragment
                     // only, with little or no data
